@@ -215,7 +215,8 @@ class EquationSolver(object):
             Tolerance for error is Parameters.InitialEquilibriumErrorTolerance
             The algorithm ignores variables listed in
             Parameters.InitialEquilibriumExcludedVariables
-        [5] Copy equilibrium values into the initial values (endogenous,
+        [5] Copy equilibrium values (the second-last time point: the one whose
+            successor was compared with it) into the initial values (endogenous,
             decoration, lagged.)
 
         Returns the new solver for inspection.
@@ -278,7 +279,10 @@ class EquationSolver(object):
             if bad:
                 bad_variables.append(var)
             else:
-                self.TimeSeries[var][0] = lastval
+                # The state installed is the one whose next period has just been checked (solving one more period
+                # from it reproduces lastval). Installing lastval itself would vouch for a step that was never
+                # taken: with a gain above one that step is larger than the one that passed the test.
+                self.TimeSeries[var][0] = prev
         if len(bad_variables) > 0:
             Logger('Variables that did not converge in initial equilibrium')
             for var in bad_variables:
